@@ -40,6 +40,8 @@ ATTR_SHIMS = {
     ("np", "arctan2"): "arctan2",
     ("np", "cross"): "cross",
 }
+for _u in ("sqrt", "sin", "cos", "tan", "arccos", "arcsin", "arctan", "log", "log10", "exp"):
+    ATTR_SHIMS[("np", _u)] = "u_" + _u
 _LINALG = {("np", "linalg", "norm"): "np_linalg_norm"}
 
 _REPORT: Dict[str, dict] = {}
@@ -185,7 +187,7 @@ def extraction_report() -> dict:
         "modules": len(_REPORT),
         "call_rewrites": sum(m["rewrites"] for m in _REPORT.values()),
         "shimmed_builtins": sorted(BUILTIN_SHIMS),
-        "shimmed_library_calls": ["math.isclose", "np.isnan", "np.clip", "np.arctan2", "np.cross", "np.linalg.norm"],
+        "shimmed_library_calls": ["math.isclose", "np.isnan", "np.clip", "np.arctan2", "np.cross", "np.linalg.norm", "np.<unary ufunc> (sqrt sin cos tan arccos arcsin arctan log log10 exp)"],
         "rebindings": ["util.constants.DTYPE := object", "util.functions.norm := sqrt-of-squares model (symbolic args only)",
                        "util.functions.rotation_matrix := Rodrigues model (symbolic args only)"],
     }
